@@ -478,12 +478,15 @@ func (s *socket) MaybeUpgrade(transport transports.Transport) {
 		}
 	}, s.server.Opts().UpgradeTimeout()))
 
-	transport.On("packet", onPacket)
-	vhook.Yield("socket.MaybeUpgrade.reading")
+	// the candidate's reader starts with its first packet listener: what ends the
+	// attempt has to be listened for by then, or a candidate that goes away at
+	// once leaves the session upgrading until the timeout above
 	transport.Once("close", onTransportClose)
 	transport.Once("error", onError)
-
 	s.Once("close", onClose)
+
+	transport.On("packet", onPacket)
+	vhook.Yield("socket.MaybeUpgrade.reading")
 }
 
 // Clears listeners and timers associated with current transport.
